@@ -19,8 +19,17 @@ func VerifSegments(in []byte, k int) []byte {
 
 // VerifBuildJPEG: SOI, k segments, SOF0 or SOF2 (symbolic choice) with nf components
 // (all frame header bytes symbolic except the component count), then an SOS header.
+// VerifBigAncillary > 0 makes VerifBuildJPEG put a COM segment of that many (concrete)
+// bytes right after SOI: a segment longer than an internal buffer, or than what a slow
+// source delivers in a hundred reads.
+var VerifBigAncillary = 0
+
 func VerifBuildJPEG(k int) (in []byte, sof []byte) {
 	in = append(in, 0xff, 0xd8)
+	if VerifBigAncillary > 0 {
+		in = append(in, 0xff, 0xfe, byte((VerifBigAncillary+2)>>8), byte(VerifBigAncillary+2))
+		in = append(in, make([]byte, VerifBigAncillary)...)
+	}
 	in = VerifSegments(in, k)
 	nf := []int{1, 3, 4}[verifChoice(3)]
 	m := verifU8()
@@ -69,4 +78,11 @@ func VerifBuildJPEGTwoSOF() []byte {
 	in = append(in, verifBytes(n)...)
 	in = append(in, 0xff, 0xda, 0, 2)
 	return in
+}
+
+// VerifHarness_C05_JPEG_Big: the same obligations with a 5000-byte COM segment before the
+// frame header.
+func VerifHarness_C05_JPEG_Big() {
+	VerifBigAncillary = 5000
+	VerifHarness_C05_JPEG()
 }
